@@ -737,9 +737,12 @@ Definition enc_value (e : env) (st : est) (is_attr : bool) (cur_attr : option (N
       | Some (EErr c) => EErr c
       | Some (EOk b) => EOk (b, st)
       | None =>
+        (* only the content of a MetInf <Type> (page 1, token 0x13) is rewritten (/repo 6dbd56f), the DM tree type for
+           SyncML 1.2 only (/repo 56fa004) *)
+        let in_type := match parent with Some (TagTok 1 19 _ _) => true | _ => false end in
         let the_buffer :=
-            if content && is_syncml (e_lang e) then
-              if strcaseeq buffer (* "application/vnd.syncml.dmtnds+xml" *) [97; 112; 112; 108; 105; 99; 97; 116; 105; 111; 110; 47; 118; 110; 100; 46; 115; 121; 110; 99; 109; 108; 46; 100; 109; 116; 110; 100; 115; 43; 120; 109; 108]
+            if content && is_syncml (e_lang e) && in_type then
+              if (lid =? LANG_SYNCML12) && strcaseeq buffer (* "application/vnd.syncml.dmtnds+xml" *) [97; 112; 112; 108; 105; 99; 97; 116; 105; 111; 110; 47; 118; 110; 100; 46; 115; 121; 110; 99; 109; 108; 46; 100; 109; 116; 110; 100; 115; 43; 120; 109; 108]
               then (* "application/vnd.syncml.dmtnds+wbxml" *) [97; 112; 112; 108; 105; 99; 97; 116; 105; 111; 110; 47; 118; 110; 100; 46; 115; 121; 110; 99; 109; 108; 46; 100; 109; 116; 110; 100; 115; 43; 119; 98; 120; 109; 108]
               else if strcaseeq buffer (* "application/vnd.syncml-devinf+xml" *) [97; 112; 112; 108; 105; 99; 97; 116; 105; 111; 110; 47; 118; 110; 100; 46; 115; 121; 110; 99; 109; 108; 45; 100; 101; 118; 105; 110; 102; 43; 120; 109; 108]
               then (* "application/vnd.syncml-devinf+wbxml" *) [97; 112; 112; 108; 105; 99; 97; 116; 105; 111; 110; 47; 118; 110; 100; 46; 115; 121; 110; 99; 109; 108; 45; 100; 101; 118; 105; 110; 102; 43; 119; 98; 120; 109; 108]
@@ -817,12 +820,20 @@ Definition enc_element_start (e : env) (st : est) (tag : tagname) (attrs : list 
 (* ------------------------------------------------------------------ *)
 (* text                                                                 *)
 
-Definition is_binary_tag (st : est) : bool :=
-  match cur_tag st with Some (_, _, o) => negb (N.land o 1 =? 0) | None => false end.
+(* text_is_binary (/repo 093ad9f): current_tag, which is only set while the FIRST child of an element is encoded, else
+   the tag of the text's parent element when that is a token *)
+Definition is_binary_tag (st : est) (parent : option tagname) : bool :=
+  match cur_tag st with
+  | Some (_, _, o) => negb (N.land o 1 =? 0)
+  | None => match parent with
+            | Some (TagTok _ _ o _) => negb (N.land o 1 =? 0)
+            | _ => false
+            end
+  end.
 
 (* parse_text for a text node with parent tag `parent` (the node is trimmed in place; nothing else reads it) *)
 Definition enc_text (e : env) (st : est) (parent : option tagname) (content : bytes) : eres (bytes * est) :=
-  if is_binary_tag st then EOk (enc_opaque content, st)
+  if is_binary_tag st parent then EOk (enc_opaque content, st)
   else
     if negb (in_cdata st) && e_ignore_empty e && only_ws content then EOk ([], st)
     else
